@@ -460,6 +460,48 @@ def corner_on_edge_curved(rnd):
     raise RuntimeError("no corner-on-edge configuration generated")
 
 
+def internal_tangency(rnd):
+    """a valid cubic triangle OUTER with an S-shaped first edge (varying second derivative) and a small valid quadratic
+    triangle INNER inside it that touches that edge from the inside at exactly one point: parameter 1/2 on the inner edge,
+    t* != 1/2 on the outer edge (all coordinates dyadic, so the tangency is exact).  The common region is INNER."""
+    for _ in range(200):
+        # corners on a coarse lattice, first edge bent into an S
+        w, h = rnd.randint(5, 8), rnd.randint(5, 8)
+        c0, c1, c2 = (Fr(0), Fr(0)), (Fr(w), Fr(0)), (Fr(rnd.randint(2, w - 2)), Fr(h))
+        rows = [[], []]
+        d = 3
+        for k in range(d + 1):
+            for j in range(d + 1 - k):
+                i = d - j - k
+                for r in range(2):
+                    rows[r].append((i * c0[r] + j * c1[r] + k * c2[r]) / d)
+        bump = Fr(rnd.randint(2, 6), 4)
+        sgn = rnd.choice([1, -1])
+        rows[1][1] -= sgn * bump                     # control points 1 and 2 of the first edge: down / up (S shape)
+        rows[1][2] += sgn * bump / rnd.choice([4, 8])
+        if not jacobian_bernstein_positive(rows, 3):
+            continue
+        ts = Fr(rnd.choice([1, 3, 5, 7]), 8) if rnd.random() < 0.7 else Fr(rnd.choice([1, 3]), 4)
+        ex, ey = rows[0][:4], rows[1][:4]
+        touch = (X.bern(ex, ts), X.bern(ey, ts))
+        tan = (X.hodograph_exact(ex, ts), X.hodograph_exact(ey, ts))
+        nrm = (-tan[1], tan[0])                      # points into OUTER (positively oriented)
+        al, be, ga = Fr(1, rnd.choice([8, 16])), Fr(1, rnd.choice([256, 512])), Fr(1, rnd.choice([4, 8]))
+        a = (touch[0] - al * tan[0] + be * nrm[0], touch[1] - al * tan[1] + be * nrm[1])
+        c = (touch[0] + al * tan[0] + be * nrm[0], touch[1] + al * tan[1] + be * nrm[1])
+        ctrl = (touch[0] - be * nrm[0], touch[1] - be * nrm[1])
+        apex = (touch[0] + ga * nrm[0], touch[1] + ga * nrm[1])
+        mid = lambda u, v: ((u[0] + v[0]) / 2, (u[1] + v[1]) / 2)     # noqa: E731
+        pts = [a, ctrl, c, mid(a, apex), mid(c, apex), apex]
+        inner = [[q[0] for q in pts], [q[1] for q in pts]]
+        if not jacobian_bernstein_positive(inner, 2):
+            continue
+        if not all(Z_f64(v) and (v * 2 ** 40).denominator == 1 for rr in (rows, inner) for row in rr for v in row):
+            continue
+        return rows, inner
+    raise RuntimeError("no internal tangency generated")
+
+
 def Z_f64(v):
     return Fr(float(v)) == v
 
@@ -1067,6 +1109,12 @@ def main():
                 n1, d1, n2, d2 = outer, 1, bq, 2
             else:
                 n1, d1, n2, d2 = rnd.choice(small), 1, bq, 2
+            if rnd.random() < 0.5:
+                n1, d1, n2, d2 = n2, d2, n1, d1
+        elif k % 5 == 4 and k % 2 == 0:
+            # containment with an internal tangency on a cubic S-shaped edge (parameters 1/2 and t* != 1/2)
+            outer3, inner2 = internal_tangency(rnd)
+            n1, d1, n2, d2 = inner2, 2, outer3, 3
             if rnd.random() < 0.5:
                 n1, d1, n2, d2 = n2, d2, n1, d1
         elif k % 5 == 3:
